@@ -746,3 +746,144 @@ def path_to(fn, start, goal_blocks, cut_blocks=(), cut_edges=()):
             prev[s] = b
             dq.append(s)
     return None
+
+
+# ---------------------------------------------------------------------------------------------
+# small structural helpers
+
+
+def place_prefix_type(fn, p, upto):
+    """type info of the value denoted by the first `upto` projection elements of place dict p (None if unknown)"""
+    types = fn.types
+    ty = types[fn.locals[p['l']]['ty']]
+    vi = 0
+    for e in p['p'][:upto]:
+        if ty is None:
+            return None
+        if 'deref' in e:
+            if ty['k'] in ('ref', 'ptr'):
+                ty = types[ty['to']]
+            elif ty['k'] == 'adt' and ty['path'] == 'alloc::boxed::Box' and ty['args']:
+                ty = types[ty['args'][0]]
+            else:
+                return None
+            vi = 0
+        elif 'f' in e:
+            if ty['k'] == 'adt':
+                adt = fn.adts.get(ty['path'])
+                if adt is None:
+                    return None
+                try:
+                    ty = types[adt['variants'][vi]['fields'][e['f']]['ty']]
+                except (IndexError, KeyError):
+                    return None
+            elif ty['k'] == 'tuple':
+                try:
+                    ty = types[ty['of'][e['f']]]
+                except IndexError:
+                    return None
+            else:
+                return None
+            vi = 0
+        elif 'dc' in e or 'vi' in e:
+            vi = e.get('vi', 0)
+        else:
+            return None
+    return ty
+
+
+def field_owner(fn, p, field_name):
+    """adt path of the struct whose field `field_name` is the LAST field projection of place p, else None"""
+    idx = None
+    for i, e in enumerate(p['p']):
+        if 'f' in e and e.get('n') == field_name:
+            idx = i
+    if idx is None:
+        return None
+    ty = place_prefix_type(fn, p, idx)
+    if ty is not None and ty['k'] == 'adt':
+        return ty['path']
+    return None
+
+
+def last_def_in_block(fn, blk, local, before=None):
+    """last `assign` statement in blk (optionally before statement index) whose lhs is exactly `local`"""
+    stmts = fn.blocks[blk]['stmts']
+    rng = range(len(stmts) if before is None else before)
+    out = None
+    for i in rng:
+        s = stmts[i]
+        if s['k'] == 'assign' and s['lhs']['l'] == local and not s['lhs']['p']:
+            out = s
+    return out
+
+
+def switch_source(fn, blk):
+    """what does the SwitchInt at blk test?  {'kind': 'place'|'call'|'discr'|'binop'|'unknown', ...}"""
+    t = fn.blocks[blk]['term']
+    if t['k'] != 'switch':
+        return None
+    p = op_place(t['discr'])
+    if p is None:
+        return {'kind': 'const'}
+    if p['p']:
+        return {'kind': 'place', 'place': p}
+    l = p['l']
+    cur = blk
+    for _ in range(6):
+        s = last_def_in_block(fn, cur, l)
+        if s is not None:
+            rv = s['rv']
+            if rv['k'] == 'use':
+                q = op_place(rv['a'])
+                if q is None:
+                    return {'kind': 'const', 'const': op_const(rv['a'])}
+                if q['p']:
+                    return {'kind': 'place', 'place': q, 'blk': cur}
+                l = q['l']
+                continue
+            if rv['k'] == 'discr':
+                return {'kind': 'discr', 'place': rv['p'], 'blk': cur}
+            if rv['k'] == 'binop':
+                return {'kind': 'binop', 'op': rv['op'], 'a': rv['a'], 'b': rv['b'], 'blk': cur}
+            if rv['k'] == 'unop':
+                return {'kind': 'unop', 'op': rv['op'], 'a': rv['a'], 'blk': cur}
+            return {'kind': 'unknown'}
+        preds = [x for x in fn.pred(cur) if x in fn.reachable()]
+        if len(preds) != 1:
+            return {'kind': 'unknown'}
+        pb = preds[0]
+        pt = fn.blocks[pb]['term']
+        if pt['k'] == 'call' and pt['dest']['l'] == l and not pt['dest']['p']:
+            return {'kind': 'call', 'callee': pt.get('callee'), 'term': pt, 'blk': pb}
+        cur = pb
+    return {'kind': 'unknown'}
+
+
+def nonzero_targets(term):
+    """targets of a boolean switch taken when the value is non-zero (true)"""
+    out = [t for v, t in term['targets'] if v != 0]
+    if not any(v == 1 for v, _ in term['targets']):
+        out.append(term['otherwise'])
+    return out
+
+
+def zero_targets(term):
+    out = [t for v, t in term['targets'] if v == 0]
+    if not out:
+        out.append(term['otherwise'])
+    return out
+
+
+def edge_dominates(fn, edges, blk):
+    """is blk unreachable from the entry once the given CFG edges are removed (and reachable otherwise)?"""
+    if blk not in fn.reachable():
+        return False
+    return blk not in fn.reach_from([0], cut_edges=edges)
+
+
+def const_operand_value(o):
+    c = op_const(o)
+    if c is None:
+        return None
+    return c.get('val')
